@@ -931,7 +931,7 @@ func (wd *world) opPay(op Op) error {
 		wd.p.SignV2Inputs(&txn, toSign)
 		if _, err := wd.cm.AddV2PoolTransactions(basis, []types.V2Transaction{txn}); err != nil {
 			wd.p.ReleaseInputs(nil, []types.V2Transaction{txn})
-			return fmt.Errorf("INFRA: payer v2 payment rejected: %w", err)
+			return fmt.Errorf("payer wallet (same code, default options): its funded and signed v2 payment was rejected by the pool: %w", err)
 		}
 		wd.cs.Class("pay=v2")
 	} else {
@@ -944,7 +944,7 @@ func (wd *world) opPay(op Op) error {
 		wd.p.SignTransaction(&txn, toSign, types.CoveredFields{WholeTransaction: true})
 		if _, err := wd.cm.AddPoolTransactions([]types.Transaction{txn}); err != nil {
 			wd.p.ReleaseInputs([]types.Transaction{txn}, nil)
-			return fmt.Errorf("INFRA: payer v1 payment rejected: %w", err)
+			return fmt.Errorf("payer wallet (same code, default options): its funded and signed v1 payment was rejected by the pool: %w", err)
 		}
 		wd.cs.Class("pay=v1")
 	}
